@@ -127,7 +127,8 @@ Definition realloc_buf (orc : oracle) (k : sid) (oldcap keep need : N) : M (sid 
   let! x := get_st k in
   let! s := mget in
   match s_cls x with
-  | SDangling => let! k' := alloc_buf newcap [] in mret (k', newcap)
+  | SDangling => (* a zero-capacity Vec grows: a first allocation; a control block owning the Vec now owns the new buffer *)
+      let! k' := alloc_buf newcap [] in upd_st k' (with_ctrl (s_ctrl x));; put_st k (with_ctrl CNone x);; mret (k', newcap)
   | SHeap =>
       mcheck (s_live x) "realloc of a freed block";; mcheck (oldcap =? s_size x) "realloc with a size different from the allocation's";;
       let k' := xO (next_real s) in
